@@ -9,7 +9,7 @@ import re
 import shutil
 import subprocess
 
-from .. import audit, classify, drive, env, hist, snap, world
+from .. import audit, classify, drive, env, hist, snap, strace, world
 
 LEVEL = "exploration"
 RULE = (
@@ -212,7 +212,46 @@ def run_case(cs):
                 kinds = sorted({k for k, _ in problems})
                 media = any(os.path.basename(os.path.dirname(p)) != "ascmhl" and os.path.basename(p) != "ascmhl" for _, p in problems)
                 cs.violation("create-changes-more-than-documented", {"kind": "snapshot-diff", "cmd": oc, "what": kinds, "media_touched": media}, {**ctx, "problems": problems[:6]})
+    # ---- I7: the same rule on the syscall level, in a real sub-process (sees writes that bypass Python)
+    if strace.available() and cs.rng.random() < (0.03 if cs.tier == "quick" else 0.06):
+        _strace_audit(cs, d, area, root, dest, state)
     cs.sample({"state": state, "tree": sorted(tree)[:6]})
+
+
+def _strace_audit(cs, d, area, root, dest, state):
+    rng = cs.rng
+    files = sorted(k for k, v in world.read_tree(root).items() if v is not None)
+    plans = [("bare:verify", [root], "ro"), ("bare:diff", [root], "ro"), ("bare:info", [root], "ro"), ("bare:verify", [root, "-dh"], "ro"), ("bare:create", [root, "-h", "md5"], "create"), ("bare:flatten", [root, dest], "flatten")]
+    if files:
+        plans.append(("bare:hash", [os.path.join(root, files[0]), "-h", "c4"], "ro"))
+    tool, argv, kind = rng.choice(plans)
+    before = snap.snap(area)
+    rc, muts, nlines, out, err = strace.trace_mutations(tool, argv, os.path.join(d, "strace.log"))
+    after = snap.snap(area)
+    cs.evaluated()
+    cs.count("strace_commands")
+    cs.count("strace_lines_parsed", nlines)
+    cs.cls("strace", tool, kind, rc)
+    relevant = []
+    for call, paths, raw in muts:
+        ps = [p for p in paths if p.startswith(d)]
+        if ps:
+            relevant.append((call, ps, raw))
+    cs.count("strace_mutating_syscalls_in_scratch", len(relevant))
+    ctx = {"tool": tool, "argv": [a.replace(d, "") for a in argv], "exit": rc, "state": state}
+    if kind == "ro":
+        if relevant:
+            cs.violation("readonly-command-mutates", {"kind": "syscall-mutation", "cmd": tool, "event": relevant[0][0]}, {**ctx, "syscalls": [r[2] for r in relevant[:3]]})
+        if not snap.empty(snap.diff(before, after)):
+            cs.violation("readonly-command-changes-tree", {"kind": "snapshot-diff", "cmd": tool, "via": "subprocess"}, ctx)
+    elif kind == "create":
+        bad = [r for r in relevant if not all(_inside_asc(p, area) for p in r[1])]
+        if bad:
+            cs.violation("create-writes-outside-ascmhl", {"kind": "syscall-mutation", "cmd": tool, "event": bad[0][0]}, {**ctx, "syscalls": [r[2] for r in bad[:3]]})
+    else:
+        bad = [r for r in relevant if not all(os.path.abspath(p).startswith(dest) for p in r[1])]
+        if bad:
+            cs.violation("flatten-writes-outside-destination", {"kind": "syscall-mutation", "cmd": tool, "event": bad[0][0]}, {**ctx, "syscalls": [r[2] for r in bad[:3]]})
 
 
 def _short(df):
